@@ -45,11 +45,9 @@ type Filter interface{}
 type dubboTransactionFilter struct{}
 
 func GetDubboTransactionFilter() filter.Filter {
-	if seataFilter == nil {
-		once.Do(func() {
-			seataFilter = &dubboTransactionFilter{}
-		})
-	}
+	once.Do(func() {
+		seataFilter = &dubboTransactionFilter{}
+	})
 	return seataFilter
 }
 
